@@ -11,6 +11,8 @@ from vf.stubs import mkconn, MiniLoop, AsyncioShim, NullLogger
 from props.connlib import frame, instrument, deliver
 from props.C10 import _Ident
 
+from props.C05 import response_after_failure
+
 ASSUMPTIONS = [
     'connections are built by the real __init__ with a permissive options stub; phase flags are then set directly to an arbitrary '
     'combination satisfying the representation invariant (not encrypted => no auth object, not authenticated; encrypted => session id set)',
@@ -424,6 +426,9 @@ OBLIGATIONS = [
     Ob('send_seq', send_seq, sym=dict(strict=B, t=R(0, 3), seqi=R(0, 3), enc=B), timeout=90,
        functions=[C.SSHConnection.send_packet],
        bounds='send_seq in {0,7,2^32-2,2^32-1}, types IGNORE/NEWKEYS/KEXINIT/CHANNEL_DATA'),
+    Ob('auth_msg_after_failure', response_after_failure, sym=dict(first_ok=B, second_ok=B, n2=R(0, 2), s=R(0, 2)), timeout=200,
+       functions=[C.SSHConnection.send_userauth_failure, C.SSHConnection.process_packet],
+       bounds='same harness as C05.response_after_failure: a method-specific message (type 61) after the attempt it belonged to was answered is out of phase: not handled, protocol error'),
 ]
 
 MANIFEST = dict(
